@@ -216,6 +216,18 @@ Lemma cert_example_moments : forall k, (k <= 1)%nat ->
   Rabs (moment (big_rule 0 0 (BigZ.zero :: nil) (BigZ.two :: nil)) k - leg_moment k) <= IZR 0 / IZR 1.
 Proof. apply cert_check_big_sound; [discriminate | discriminate | reflexivity | exact cert_example]. Qed.
 
+
+(* non-vacuity on a real rule: the 3-point Gauss-Legendre rule in binary64 (the values gauss-quad 0.2.4 returns: nodes
+   0.7745966692414834, 6.123233995736766e-17, -0.7745966692414833; weights 0.5555555555555556, 0.8888888888888888,
+   0.5555555555555556) is certified to degree 5 within 1e-13 *)
+Definition gl3_xs : list bigZ := (62842747692720237858896947970048 :: 4967757600021511 :: (-62842747692720228851697693229056) :: nil)%bigZ.
+Definition gl3_ws : list bigZ := (2501999792983609 :: 4003199668773774 :: 2501999792983609 :: nil)%bigZ.
+Lemma cert_example_gl3 : cert_check_big 106 52 5 1 (10 ^ 13) gl3_xs gl3_ws = true.
+Proof. vm_compute. reflexivity. Qed.
+Lemma cert_example_gl3_moments : forall k, (k <= 5)%nat ->
+  Rabs (moment (big_rule 106 52 gl3_xs gl3_ws) k - leg_moment k) <= IZR 1 / IZR (10 ^ 13).
+Proof. apply cert_check_big_sound; [discriminate | discriminate | reflexivity | exact cert_example_gl3]. Qed.
+
 (* ------------------------------------------------------------------ the gauss-quad adapter: the TRANSLATED arms
    Integrator::GaussLegendre of integrate / integrate2d (Gen/Integration.v), with the external crate as the oracle
    [rule_oracle table] — any table of fixed linear rules, applied with gauss-quad's affine transfer *)
